@@ -23,9 +23,9 @@ package streamflow
 //@ pure FlowRefI.GetAt
 //@ pure FlowConnRepI.GetFrom
 //@ pure FlowConnRepI.GetTo
-//@ pure ConnectionRefI.GetProcessor
-//@ pure ConnectionRefI.GetStream
-//@ pure ConnectionRefI.GetFlow
+//@ pure ConnectionRepI.GetProcessor
+//@ pure ConnectionRepI.GetStream
+//@ pure ConnectionRepI.GetFlow
 
 // sameConn(a, b): a and b describe the same configured connection: same condition and the same target (a processor with
 // the same key, or the same stream / flow end point)
@@ -56,3 +56,63 @@ package streamflow
 //@   ensures[keeps-edges] len(fgn.edges) >= old(len(fgn.edges)) && len(fgn.edges) <= old(len(fgn.edges)) + 1 && forall(k, 0, old(len(fgn.edges)), fgn.edges[k] == old(fgn.edges)[k])
 //@   ensures[appended-is-edge] len(fgn.edges) == old(len(fgn.edges)) + 1 ==> fgn.edges[old(len(fgn.edges))] == edge
 //@   ensures[no-nil-edges] forall(k, 0, len(fgn.edges), fgn.edges[k] != nil)
+
+//@ extern ProcessorManager.GetProcessorInstance
+//@   modifies nothing
+
+//@ func (*graphNodeBuilder).buildNode
+//@   prop C04
+//@   requires fgb != nil
+//@   modifies nothing
+//@   allocates FlowGraphNode
+//@   ensures[new-node] result1 == nil ==> result0 != nil && !old(allocated(result0)) && allocated(result0) && result0.processorKey == processor.GetReferenceName() && result0.flowGraphName == flowRepName && len(result0.edges) == 0
+//@   ensures[no-node-on-error] result1 != nil ==> result0 == nil
+
+// One node per processor reference name in a direction.
+//@ func (*FlowDirection).getOrCreateNode
+//@   prop C04
+//@   requires fd != nil && fd.nodes != nil && fd.graphNodeBuilder != nil
+//@   requires[keys] forall(k, string, in(k, fd.nodes) ==> fd.nodes[k] != nil && allocated(fd.nodes[k]) && fd.nodes[k].processorKey == k)
+//@   modifies mapof(fd.nodes)
+//@   allocates FlowGraphNode
+//@   ensures[node-of-key] result1 == nil ==> result0 != nil && in(processor.GetReferenceName(), fd.nodes) && fd.nodes[processor.GetReferenceName()] == result0 && result0.processorKey == processor.GetReferenceName()
+//@   ensures[existing-kept] forall(k, string, old(in(k, fd.nodes)) ==> in(k, fd.nodes) && fd.nodes[k] == old(fd.nodes[k]))
+//@   ensures[only-this-key] forall(k, string, in(k, fd.nodes) && k != processor.GetReferenceName() ==> old(in(k, fd.nodes)))
+//@   ensures[keys] forall(k, string, in(k, fd.nodes) ==> fd.nodes[k] != nil && allocated(fd.nodes[k]) && fd.nodes[k].processorKey == k)
+//@   ensures[no-edges-when-new] result1 == nil && !old(in(processor.GetReferenceName(), fd.nodes)) ==> len(result0.edges) == 0
+//@   ensures[unchanged-on-error] result1 != nil ==> forall(k, string, in(k, fd.nodes) <==> old(in(k, fd.nodes)))
+
+// processor -> processor: afterwards the source node has an edge with the configured condition to the target's node.
+//@ func (*flowBuilder).connectProcessors
+//@   prop C04
+//@   requires flowDir != nil && flowDir.nodes != nil && flowDir.graphNodeBuilder != nil
+//@   requires[keys] forall(k, string, in(k, flowDir.nodes) ==> flowDir.nodes[k] != nil && allocated(flowDir.nodes[k]) && flowDir.nodes[k].processorKey == k)
+//@   requires[no-nil-edges] forall(n, *FlowGraphNode, allocated(n) ==> forall(k, 0, len(n.edges), n.edges[k] != nil))
+//@   modifies mapof(flowDir.nodes), allof(FlowGraphNode.edges)
+//@   allocates FlowGraphNode, ConnectionEdge
+//@   ensures[connected] result == nil ==> in(conn.GetFrom().GetProcessor().GetReferenceName(), flowDir.nodes) && in(conn.GetTo().GetProcessor().GetReferenceName(), flowDir.nodes) && exists(k, 0, len(flowDir.nodes[conn.GetFrom().GetProcessor().GetReferenceName()].edges), flowDir.nodes[conn.GetFrom().GetProcessor().GetReferenceName()].edges[k].condition == conn.GetFrom().GetProcessor().GetCondition() && flowDir.nodes[conn.GetFrom().GetProcessor().GetReferenceName()].edges[k].node != nil && flowDir.nodes[conn.GetFrom().GetProcessor().GetReferenceName()].edges[k].node.processorKey == conn.GetTo().GetProcessor().GetReferenceName())
+//@   ensures[keys] forall(k, string, in(k, flowDir.nodes) ==> flowDir.nodes[k] != nil && allocated(flowDir.nodes[k]) && flowDir.nodes[k].processorKey == k)
+
+// stream start -> processor: the direction's entry point is the processor's node (or, for a foreign flow, the pending root)
+//@ func (*flowBuilder).connectStreamToProcessor
+//@   prop C04
+//@   requires fb != nil && flowDir != nil && flowDir.nodes != nil && flowDir.graphNodeBuilder != nil
+//@   requires[keys] forall(k, string, in(k, flowDir.nodes) ==> flowDir.nodes[k] != nil && allocated(flowDir.nodes[k]) && flowDir.nodes[k].processorKey == k)
+//@   modifies mapof(flowDir.nodes), flowDir.root, fb.foreignRoot
+//@   allocates FlowGraphNode, EntryPoint
+//@   ensures[entry-point] result == nil && flowDir.flowName == flowDir.nodes[conn.GetTo().GetProcessor().GetReferenceName()].flowGraphName ==> flowDir.root != nil && flowDir.root.node == flowDir.nodes[conn.GetTo().GetProcessor().GetReferenceName()] && flowDir.root.stream == conn.GetFrom().GetStream()
+//@   ensures[foreign-entry-point] result == nil && flowDir.flowName != flowDir.nodes[conn.GetTo().GetProcessor().GetReferenceName()].flowGraphName ==> fb.foreignRoot != nil && fb.foreignRoot.node == flowDir.nodes[conn.GetTo().GetProcessor().GetReferenceName()] && flowDir.root == old(flowDir.root)
+//@   ensures[keys] forall(k, string, in(k, flowDir.nodes) ==> flowDir.nodes[k] != nil && allocated(flowDir.nodes[k]) && flowDir.nodes[k].processorKey == k)
+
+// processor -> stream end: the source node gets an edge with the configured condition that ends the walk (or, for a
+// foreign request flow, leads to this direction's own entry node)
+//@ func (*flowBuilder).connectProcessorToStream
+//@   prop C04
+//@   requires flowDir != nil && flowDir.nodes != nil && flowDir.graphNodeBuilder != nil && !ifacenil(conn.GetTo().GetStream())
+//@   requires[keys] forall(k, string, in(k, flowDir.nodes) ==> flowDir.nodes[k] != nil && allocated(flowDir.nodes[k]) && flowDir.nodes[k].processorKey == k)
+//@   requires[no-nil-edges] forall(n, *FlowGraphNode, allocated(n) ==> forall(k, 0, len(n.edges), n.edges[k] != nil))
+//@   requires[root-has-node] flowDir.root != nil ==> flowDir.root.node != nil
+//@   modifies mapof(flowDir.nodes), allof(FlowGraphNode.edges)
+//@   allocates FlowGraphNode, ConnectionEdge
+//@   ensures[connected] result == nil ==> in(conn.GetFrom().GetProcessor().GetReferenceName(), flowDir.nodes) && exists(k, 0, len(flowDir.nodes[conn.GetFrom().GetProcessor().GetReferenceName()].edges), flowDir.nodes[conn.GetFrom().GetProcessor().GetReferenceName()].edges[k].condition == conn.GetFrom().GetProcessor().GetCondition())
+//@   ensures[keys] forall(k, string, in(k, flowDir.nodes) ==> flowDir.nodes[k] != nil && allocated(flowDir.nodes[k]) && flowDir.nodes[k].processorKey == k)
